@@ -422,3 +422,57 @@ impl Address {
         }
     }
 }
+
+//@@ octo-squirrel/src/codec.rs:31-31  struct BytesCodec  sha=e370c0c9b665f23f
+pub struct BytesCodec;
+
+//@@ octo-squirrel/src/codec.rs:33-45  impl Decoder for BytesCodec  sha=36c4625538f0f0a6
+impl BytesCodec {
+
+    fn decode(&mut self, buf: &mut BytesMut) -> Result<Option<BytesMut>> {
+        if !buf.is_empty() {
+            let len = buf.len();
+            Ok(Some(buf.split_to(len)))
+        } else {
+            Ok(None)
+        }
+    }
+}
+
+//@@ octo-squirrel/src/codec.rs:47-54  impl Encoder for BytesCodec#0  sha=1bf9008e5cc78f08
+impl BytesCodec {
+
+    fn encode_bytes(&mut self, data: Bytes, buf: &mut BytesMut) -> Result<()> {
+        buf.extend_from_slice(&data);
+        Ok(())
+    }
+}
+
+//@@ octo-squirrel/src/codec.rs:56-63  impl Encoder for BytesCodec#1  sha=60cbf13fa2a0a293
+impl BytesCodec {
+
+    fn encode(&mut self, data: BytesMut, buf: &mut BytesMut) -> Result<()> {
+        buf.extend_from_slice(&data);
+        Ok(())
+    }
+}
+
+//@@ octo-squirrel/src/protocol/socks.rs:1-5  enum SocksVersion  sha=a233577e63cf4e43
+pub enum SocksVersion {
+    Socks4a = 4,
+    Socks5 = 5,
+    Unknown = 0xff,
+}
+
+//@@ octo-squirrel/src/protocol/socks.rs:7-17  impl From for SocksVersion  sha=f19247d01cc8c311
+impl From<u8> for SocksVersion {
+    fn from(value: u8) -> Self {
+        if value == Self::Socks4a as u8 {
+            return Self::Socks4a;
+        }
+        if value == Self::Socks5 as u8 {
+            return Self::Socks5;
+        }
+        Self::Unknown
+    }
+}
